@@ -131,6 +131,38 @@ def run(ctx):
               "root logger)", "EventLogFactory.name is %r" % (nm,),
               nontrivial=False)
 
+    from rules.common import crosscheck_many
+    H = LG + ".handlers"
+    crosscheck_many(ctx, "C20.R5", [
+        (H + ".HandlerFactory.__init__", "handlerfactory_init",
+         H + ".HandlerFactory", "formatter factory built from the section"),
+        (H + ".HandlerFactory.getLevel", "handlerfactory_getLevel",
+         H + ".HandlerFactory", "the section's level"),
+        (H + ".FileHandlerFactory.create_loghandler",
+         "filehandler_create_loghandler", H + ".FileHandlerFactory",
+         "calls the factory chosen by the option table"),
+        (LG + ".logger.LoggerFactoryBase.startup", "logger_startup",
+         LG + ".logger.LoggerFactoryBase", "instantiates through the memo"),
+        (LG + ".logger.LoggerFactoryBase.reopen", "logger_reopen",
+         LG + ".logger.LoggerFactoryBase",
+         "reopens the handlers of the memoised logger"),
+        (H + ".SMTPHandlerFactory.__init__", "smtp_init",
+         H + ".SMTPHandlerFactory", "username and password both or none"),
+    ])
+    crosscheck_many(ctx, "C20.R7", [
+        (H + ".syslog_facility", "syslog_facility", None,
+         "lower-cased membership in the facility table"),
+        (H + ".get_or_post", "get_or_post", None, "GET or POST, upper-cased"),
+        (H + ".http_handler_url", "http_handler_url", None,
+         "http URL with location and path"),
+        (H + ".log_format", "log_format", None,
+         "trial %-formatting against the reference field set"),
+        (LG + ".formatter.ctrl_char_insert", "ctrl_char_insert", None,
+         "escape rewrites"),
+        (LG + ".formatter.escaped_string", "escaped_string", None,
+         "escape rewrites"),
+    ])
+
     # ------------------------------------------------------------------ R6
     for cq in (LG + ".loghandler.FileHandler",
                LG + ".loghandler.RotatingFileHandler",
